@@ -113,6 +113,8 @@ CLASSES = {"runtime-utils-imports-black": "F38"}
 
 def check(run: Run, ctx) -> None:
     known = findings.Known(run, PROP)
+    from . import _generic as g
+    g.run_corr(run, ctx, "vf.corr.c01", "Imports (RenderContext.add_import classification, relative paths)", quick=0.3, thorough=3.0)
     rt = runtime_sources()
     pats, dyn = extract_tables.generator_import_patterns()
     patterns = [(k, m) for _, k, m in pats if m.strip("{}.") != ""]   # a bare hole explains nothing
